@@ -16,6 +16,7 @@ Model of `cryptz/crypt.go`, mirroring the Go code statement by statement.
   repaired code, which the property theorems are about).
 -/
 import Golib.Model.C08Pad
+import Golib.Model.C09Dec
 
 namespace Golib.C09
 open Golib.C08
@@ -28,9 +29,10 @@ structure Prims where
   /-- byte `p` of the keystream of `cipher.NewCTR(aes.NewCipher(key), iv)` -/
   KS : (key iv : Bytes) → Nat → Nat
   b64enc : Bytes → Bytes
-  b64dec : Bytes → Option Bytes
+  /-- `base64.StdEncoding.Decode(dst, src)`: the bytes it writes to `dst[0..]` and whether it
+  succeeded; `strz.Base64Decode` around it (buffer sizing, `dst[:n]`) is modelled: `base64DecodeW` -/
+  b64raw : B64Decode
   hexenc : Bytes → Bytes
-  hexdec : Bytes → Option Bytes
 
 def saltLen : Nat := 8
 def keyLen : Nat := 32
@@ -155,9 +157,11 @@ def encrypt (P : Prims) (salt plainText secret : Bytes) : R Bytes :=
 
 /-- `Decrypt(cipherText, secret)` -/
 def decrypt (P : Prims) (cipherText secret : Bytes) : R Bytes :=
-  match P.b64dec cipherText with
-  | none => .err "b64"
-  | some src => saltBySecretCBCDecrypt P src secret true
+  -- src, err := strz.Base64Decode(cipherText, base64.StdEncoding): make(DecodedLen), Decode, dst[:n]
+  match base64DecodeW P.b64raw cipherText with
+  | .panic => .panic
+  | .err e => .err e
+  | .ok src => saltBySecretCBCDecrypt P src secret true
 
 /-! ### GCM envelope -/
 
@@ -222,9 +226,12 @@ def gcmEncrypt (P : Prims) (salt plainText secret ad : Bytes) : R Bytes :=
   | .panic => .panic
 
 def gcmDecrypt (P : Prims) (cipherText secret ad : Bytes) : R Bytes :=
-  match P.hexdec cipherText with
-  | none => .err "hex"
-  | some src => saltBySecretGCMDecrypt P src secret ad true
+  -- src, err := strz.HexDecode(cipherText): make(len/2), the repo's hexDecode loop (dst[i] = …), dst[:n]
+  -- — the buffer-level model of property C15 (`Model/C15Hex.lean`)
+  match hexDecodeW cipherText with
+  | .panic => .panic
+  | .err e => .err e
+  | .ok src => saltBySecretGCMDecrypt P src secret ad true
 
 /-! ### `io.Reader` / `io.Writer` models -/
 
